@@ -124,3 +124,18 @@ prop(
     design_ref="§8 C03",
     assumptions=["header values use ASCII white space only", "the std IP text parser is trusted"],
 )
+
+prop(
+    "C11",
+    module="Aquatic.Props.C11",
+    extra_modules=["Aquatic.Props.Store"],
+    technique="Lean 4 proof (file parsing, parse-then-store reload, gate, clean under the list in force, end-to-end refinement over any interleaving) + differential check of the real update_access_list / create_from_path and of the stores' clean with lists",
+    runs=[dict(harness="acl", driver="acl", quick=dict(cases=500), thorough=dict(cases=50000)),
+          dict(harness="udpstore", driver="store", quick=dict(cases=300, maxops=60), thorough=dict(cases=10000, maxops=120)),
+          dict(harness="httpstore", driver="store", quick=dict(cases=300, maxops=60), thorough=dict(cases=10000, maxops=120))],
+    nontrivial=["failed-reload-with-nonempty-previous-list", "blank-lines", "file-unreadable", "cln-acl"],
+    level_text="Theorems: allows(mode, list, hash) for the three modes; a denied announce returns an error and the same state; a reload parses the whole file before storing, so a missing file or a malformed/unreadable line at any position leaves the previous list in force, a good file switches to exactly its hashes (blank lines, surrounding Unicode white space and hex case ignored); cleaning keeps an entry iff it is unexpired and its torrent permitted by the list in force; and for every interleaving of announce / scrape / reload / clean the gated store refines the reference tracker guarded by the latest successfully loaded list. Tie: the real update_access_list on generated files (bad line at every position, invalid UTF-8, CRLF, missing file, directory) observed through the shared list and through a per-worker cache; the real stores' clean with allow/deny lists.",
+    level_note="The gate in front of the three trackers' announce paths sits in private socket-worker code; it is exercised by the socket-level runs (C06, C16, C17), here it is modelled. Trusted: arc_swap (a store is seen by the next load), hex::decode_to_slice, BufRead::lines and str::trim contracts (their agreement with the model is sampled).",
+    design_ref="§8 C11",
+    assumptions=["arc_swap::Cache observes a store on its next load"],
+)
